@@ -173,5 +173,149 @@ theorem encryptPass_tie (inp : Bytes) (out : ζ) (armor : Bool) (t0 : τ) :
             cases E [r.1] inp out armor r.2.2 <;> rfl
 end
 
+/-! ## `encryptNotPass`: recipients from `-r`, `-R`, `-i`, `-j`, in that order -/
+
+section
+variable {ζ ι ρ τ υ : Type} (PR : Bytes → τ → Go.M (ρ × Option Go.Err × τ)) (PRF : Bytes → τ → Go.M (List ρ × Option Go.Err × τ))
+  (PIF : Bytes → τ → Go.M (List ι × Option Go.Err × τ)) (I2R : List ι → τ → Go.M (List ρ × Option Go.Err × τ)) (ui : υ)
+  (NI : Bytes → υ → τ → Go.M (ι × Option Go.Err × τ)) (IR : ι → τ → Go.M (ρ × τ)) (E : List ρ → Bytes → ζ → Bool → τ → Go.M τ)
+
+/-- the `-r` arguments: each parsed; a `github:` recipient ends the process with a hint (site 1000), any other failure with
+    the error (site 1001) -/
+def collectR : List Bytes → τ → List ρ → Go.M (τ × List ρ)
+  | [], t, acc => pure (t, acc)
+  | a :: rest, t, acc => do
+    let r ← PR a t
+    if Go.errIsType r.2.1 "main.gitHubRecipientError" = true then .error (.panic 1000)
+    else if (r.2.1 != none) = true then .error (.panic 1001)
+    else collectR rest r.2.2 (acc ++ [r.1])
+
+/-- the `-R` files -/
+def collectRF : List Bytes → τ → List ρ → Go.M (τ × List ρ)
+  | [], t, acc => pure (t, acc)
+  | f :: rest, t, acc => do
+    let r ← PRF f t
+    if (r.2.1 != none) = true then .error (.panic 1002) else collectRF rest r.2.2 (acc ++ r.1)
+
+/-- the `-i` / `-j` flags, turned into recipients -/
+def collectIR : List main_identityFlag → τ → List ρ → Go.M (τ × List ρ)
+  | [], t, acc => pure (t, acc)
+  | f :: rest, t, acc =>
+    if f.Type_ = [105] then do
+      let r ← PIF f.Value t
+      if (r.2.1 != none) = true then .error (.panic 1003)
+      else do
+        let q ← I2R r.1 r.2.2
+        if (q.2.1 != none) = true then .error (.panic 1004) else collectIR rest q.2.2 (acc ++ q.1)
+    else if f.Type_ = [106] then do
+      let r ← NI f.Value ui t
+      if (r.2.1 != none) = true then .error (.panic 1005)
+      else do
+        let q ← IR r.1 r.2.2
+        collectIR rest q.2 (acc ++ [q.1])
+    else collectIR rest t acc
+
+theorem encryptNotPass_loop1 (recs : List Bytes) : ∀ (t : τ) (acc : List ρ),
+    main_encryptNotPass_loop1 PR recs t acc = (collectR PR recs t acc).map fun r => (.next r : Go.Loop (τ × List ρ) τ) := by
+  induction recs with
+  | nil => intro t acc; rfl
+  | cons a rest ih =>
+    intro t acc
+    simp only [main_encryptNotPass_loop1, collectR, bind, Except.bind, pure, Except.pure]
+    cases h1 : PR a t with
+    | error e => rfl
+    | ok r =>
+      simp only []
+      by_cases hg : Go.errIsType r.2.1 "main.gitHubRecipientError" = true
+      · simp [hg]; rfl
+      · simp only [hg, if_false, Bool.false_eq_true]
+        by_cases he : (r.2.1 != none) = true
+        · simp [he]; rfl
+        · simp only [he, if_false]; exact ih _ _
+
+theorem encryptNotPass_loop2 (files : List Bytes) : ∀ (t : τ) (acc : List ρ),
+    main_encryptNotPass_loop2 PRF files t acc = (collectRF PRF files t acc).map fun r => (.next r : Go.Loop (τ × List ρ) τ) := by
+  induction files with
+  | nil => intro t acc; rfl
+  | cons f rest ih =>
+    intro t acc
+    simp only [main_encryptNotPass_loop2, collectRF, bind, Except.bind, pure, Except.pure]
+    cases h1 : PRF f t with
+    | error e => rfl
+    | ok r =>
+      simp only []
+      by_cases he : (r.2.1 != none) = true
+      · simp [he]; rfl
+      · simp only [he, if_false]; exact ih _ _
+
+theorem encryptNotPass_loop3 (flags : List main_identityFlag) : ∀ (t : τ) (acc : List ρ),
+    main_encryptNotPass_loop3 PIF I2R ui NI IR flags t acc =
+      (collectIR PIF I2R ui NI IR flags t acc).map fun r => (.next r : Go.Loop (τ × List ρ) τ) := by
+  induction flags with
+  | nil => intro t acc; rfl
+  | cons f rest ih =>
+    intro t acc
+    simp only [main_encryptNotPass_loop3, collectIR, bind, Except.bind, pure, Except.pure]
+    by_cases hi : f.Type_ = [105]
+    · simp only [hi, beq_self_eq_true, if_true]
+      cases h1 : PIF f.Value t with
+      | error e => rfl
+      | ok r =>
+        simp only []
+        by_cases he : (r.2.1 != none) = true
+        · simp [he]; rfl
+        · simp only [he, if_false]
+          cases h2 : I2R r.1 r.2.2 with
+          | error e => rfl
+          | ok q =>
+            simp only []
+            by_cases hq : (q.2.1 != none) = true
+            · simp [hq]; rfl
+            · simp only [hq, if_false]; exact ih _ _
+    · have hi' : (f.Type_ == ([105] : List UInt8)) = false := by simpa using hi
+      simp only [hi, hi', if_false, Bool.false_eq_true]
+      by_cases hj : f.Type_ = [106]
+      · simp only [hj, beq_self_eq_true, if_true]
+        cases h1 : NI f.Value ui t with
+        | error e => rfl
+        | ok r =>
+          simp only []
+          by_cases he : (r.2.1 != none) = true
+          · simp [he]; rfl
+          · simp only [he, if_false]
+            cases h2 : IR r.1 r.2.2 with
+            | error e => rfl
+            | ok q => simp only []; exact ih _ _
+      · have hj' : (f.Type_ == ([106] : List UInt8)) = false := by simpa using hj
+        simp only [hj, hj', if_false, Bool.false_eq_true]
+        exact ih _ _
+
+/-- `age -e -r … -R … -i … -j …`: the recipients handed to `encrypt` are those of the `-r` arguments, then those of the `-R`
+    files, then those derived from the `-i` files and `-j` plugins — each group in the order given —; any failure ends the
+    process before `encrypt` is called -/
+theorem encryptNotPass_tie (recs files : List Bytes) (flags : List main_identityFlag) (inp : Bytes) (out : ζ) (armor : Bool) (t0 : τ) :
+    main_encryptNotPass PR PRF PIF I2R ui NI IR E recs files flags inp out armor t0 =
+      (do let a ← collectR PR recs t0 []
+          let b ← collectRF PRF files a.1 a.2
+          let c ← collectIR PIF I2R ui NI IR flags b.1 b.2
+          E c.2 inp out armor c.1) := by
+  simp only [main_encryptNotPass, encryptNotPass_loop1, encryptNotPass_loop2, encryptNotPass_loop3, bind, Except.bind, pure,
+    Except.pure, Except.map]
+  cases h1 : collectR PR recs t0 [] with
+  | error e => rfl
+  | ok a =>
+    simp only []
+    cases h2 : collectRF PRF files a.1 a.2 with
+    | error e => rfl
+    | ok b =>
+      simp only []
+      cases h3 : collectIR PIF I2R ui NI IR flags b.1 b.2 with
+      | error e => rfl
+      | ok c =>
+        simp only []
+        cases E c.2 inp out armor c.1 <;> rfl
+
+end
+
 end GoTie
 end AgeModel
